@@ -390,9 +390,21 @@ class _Canon(ast.NodeTransformer):
                 return None        # the temp is mutated afterwards: not a pure value
             temps[t] = val
             body = body[1:]
+        # guard clauses in front of the one accumulating statement: `if c: continue` + REST is `if not c: REST`
+        pre = []
+        while len(body) > 1 and isinstance(body[0], ast.If) and not body[0].orelse and len(body[0].body) == 1 and isinstance(body[0].body[0], ast.Continue):
+            t = body[0].test
+            if isinstance(t, ast.Compare) and len(t.ops) == 1 and type(t.ops[0]) in cls.NEG:
+                t = ast.copy_location(ast.Compare(left=t.left, ops=[cls.NEG[type(t.ops[0])]()], comparators=list(t.comparators)), t)
+            elif isinstance(t, ast.UnaryOp) and isinstance(t.op, ast.Not):
+                t = t.operand
+            else:
+                t = ast.copy_location(ast.UnaryOp(op=ast.Not(), operand=t), t)
+            pre.append(t)
+            body = body[1:]
         if len(body) != 1:
             return None
-        conds = []
+        conds = list(pre)
         st = body[0]
 
         def acc_value(s_):
